@@ -475,8 +475,7 @@ pub fn run_property<S: Scenario>(spec: &PropertySpec, opts: &Options) -> i32 {
         let mut reproduced = known_hits.get(&k.class).copied().unwrap_or(0) > 0;
         if let Some(rp) = &k.replay {
             let p = opts.verif_root.join(rp);
-            if p.exists() {
-                let f = load_replay::<S>(&p);
+            if let Some(f) = try_load_replay::<S>(&p) {
                 let r = execute_caught(&f.scenario, opts.tier);
                 match r.outcome.class() {
                     Some(c) if c == k.class => reproduced = true,
@@ -495,6 +494,27 @@ pub fn run_property<S: Scenario>(spec: &PropertySpec, opts: &Options) -> i32 {
             known_lines.push(k.what.clone());
         } else {
             eprintln!("note: listed finding no longer reproduces: {} ({})", k.class, k.what);
+        }
+    }
+
+    // Fixed findings suppress nothing: their recorded scenarios are re-executed as regressions and
+    // any violation they show is reported again.
+    let mut regressions_checked = 0u64;
+    for k in known.iter().filter(|k| k.property == spec.id && k.status == "fixed") {
+        if let Some(rp) = &k.replay {
+            let p = opts.verif_root.join(rp);
+            if let Some(f) = try_load_replay::<S>(&p) {
+                let r = execute_caught(&f.scenario, opts.tier);
+                regressions_checked += 1;
+                if let Some(c) = r.outcome.class() {
+                    if !open_classes.contains(c) {
+                        eprintln!("fixed finding returned: class={c} scenario={}", p.display());
+                        println!("VIOLATION property={} replay={}", spec.id, p.display());
+                        exit = 1;
+                        new_violations += 1;
+                    }
+                }
+            }
         }
     }
 
@@ -534,6 +554,7 @@ pub fn run_property<S: Scenario>(spec: &PropertySpec, opts: &Options) -> i32 {
                 "known_finding_hits": known_hits,
                 "violation_classes_seen": class_hist,
                 "known_findings_reported": known_lines,
+                "fixed_finding_regressions_rechecked": regressions_checked,
                 "avoidance_mode_runs": evaluations / 2,
                 "replay": replay_path.as_ref().map(|p| p.display().to_string()),
             },
@@ -567,6 +588,19 @@ pub fn run_property<S: Scenario>(spec: &PropertySpec, opts: &Options) -> i32 {
     );
     let _ = std::fs::remove_dir_all(scratch_base());
     exit
+}
+
+/// Tolerant loader for recorded finding scenarios: a file written for an older scenario format is
+/// skipped with a note (it never turns into an alarm or a harness error).
+pub fn try_load_replay<S: Scenario>(path: &Path) -> Option<ReplayFile<S>> {
+    let bytes = std::fs::read(path).ok()?;
+    match serde_json::from_slice(&bytes) {
+        Ok(f) => Some(f),
+        Err(e) => {
+            eprintln!("note: recorded scenario {} does not parse with the current format ({e}); skipped", path.display());
+            None
+        }
+    }
 }
 
 pub fn load_replay<S: Scenario>(path: &Path) -> ReplayFile<S> {
